@@ -1,4 +1,5 @@
 import IstioModel.C19.Theorems
+import IstioModel.C19.Monitor
 import IstioModel.Generated.C19Table
 
 /-!
@@ -33,6 +34,10 @@ theorem constants_tie :
     Gen.ignoredNamespaces = ignoredNamespaces ∧
     Pol.ofString Gen.policyEnabled = .enabled ∧ Pol.ofString Gen.policyDisabled = .disabled := by
   decide +kernel
+
+/-- The container names the monitors treat as owned by the injector are the code's constants
+    `ProxyContainerName`, `InitContainerName`, `ValidationContainerName`, `EnableCoreDumpName`. -/
+theorem reserved_names_tie : Gen.reservedContainerNames = reservedNames := by decide +kernel
 
 /-- **Determinism / "determined only by".** The harness rebuilt the table under every realisation
     variant (fields outside the listed inputs varied: pod name, owner, other labels and
